@@ -5,6 +5,7 @@ use crate::elem::Tk;
 use crate::engine::{self, E1Params, E2Params, Limits, Outcome, World};
 use crate::mapworld::{Cfg, Flags, MapWorld};
 use crate::op::Op;
+use crate::setworld::SetWorld;
 use serde::{Deserialize, Serialize};
 
 #[derive(Serialize, Deserialize, Clone, Debug, Default)]
@@ -112,7 +113,13 @@ pub fn result_of(spec: &ShardSpec, o: Outcome) -> ShardResult {
         violations: o
             .violations
             .iter()
-            .map(|v| ViolRec { kind: v.kind.clone(), msg: v.msg.clone(), history: ops_to_strings(&v.history), sig: engine::sig_of(&v.kind, &v.msg, v.history.last().copied()) })
+            .map(|v| ViolRec {
+                kind: v.kind.clone(),
+                msg: v.msg.clone(),
+                history: ops_to_strings(&v.history),
+                // only for single-collection histories is "the last op" the triggering call
+                sig: engine::sig_of(&v.kind, &v.msg, if matches!(spec.engine.as_str(), "e1" | "e2") { v.history.last().copied() } else { None }),
+            })
             .collect(),
         viol_count: o.viol_count,
         samples: o.samples.iter().map(|h| ops_to_strings(h)).collect(),
@@ -128,7 +135,7 @@ fn run_generic<W: World>(spec: &ShardSpec, cur: Option<&str>, trace: Option<(u64
     let alpha = alpha::by_name(&spec.alpha);
     let lim = Limits { max_states: spec.max_states, max_secs: spec.max_secs, max_viol: 12 };
     match spec.engine.as_str() {
-        "e1" => engine::run_e1::<W>(&cfg, &E1Params { n: spec.n, d: spec.d, concrete_layers: spec.concrete_layers }, &*alpha, &lim, cur, trace),
+        "e1" => engine::run_e1::<W>(&cfg, &E1Params { n: spec.n, d: spec.d, concrete_layers: spec.concrete_layers, collect_family: false }, &*alpha, &lim, cur, trace),
         "e2" => engine::run_e2::<W>(&cfg, &E2Params { universe: spec.universe, max_depth: if spec.max_depth == 0 { usize::MAX } else { spec.max_depth } }, &*alpha, &lim, cur, trace),
         e => panic!("engine {} is not generic", e),
     }
@@ -258,6 +265,9 @@ pub fn run_shard(spec: &ShardSpec, cur: Option<&str>, trace: Option<(u64, String
         ("e1" | "e2", "map", "u32") => run_generic::<MapWorld<u32>>(spec, cur, trace),
         ("e1" | "e2", "map", "tk") => run_generic::<MapWorld<Tk>>(spec, cur, trace),
         ("e1" | "e2", "map", "zst") => run_generic::<MapWorld<()>>(spec, cur, trace),
+        ("e1" | "e2", "set", "u32") => run_generic::<SetWorld<u32>>(spec, cur, trace),
+        ("e1" | "e2", "set", "tk") => run_generic::<SetWorld<Tk>>(spec, cur, trace),
+        ("e1" | "e2", "set", "zst") => run_generic::<SetWorld<()>>(spec, cur, trace),
         (e, w, t) => panic!("no shard runner for engine {} world {} type {}", e, w, t),
     };
     result_of(spec, o)
@@ -269,6 +279,22 @@ pub fn replay_shard(spec: &ShardSpec, hist: &[Op], quiet: bool) -> Result<(), (u
         ("map", "u32") => engine::replay_verbose::<MapWorld<u32>>(&cfg, hist, quiet),
         ("map", "tk") => engine::replay_verbose::<MapWorld<Tk>>(&cfg, hist, quiet),
         ("map", "zst") => engine::replay_verbose::<MapWorld<()>>(&cfg, hist, quiet),
+        ("set", "u32") => engine::replay_verbose::<SetWorld<u32>>(&cfg, hist, quiet),
+        ("set", "tk") => engine::replay_verbose::<SetWorld<Tk>>(&cfg, hist, quiet),
+        ("set", "zst") => engine::replay_verbose::<SetWorld<()>>(&cfg, hist, quiet),
         (w, t) => panic!("no replay for world {} type {}", w, t),
+    }
+}
+
+pub fn transcript_shard(spec: &ShardSpec, hist: &[Op]) -> String {
+    let cfg = spec.cfg();
+    match (spec.world.as_str(), spec.ty.as_str()) {
+        ("map", "u32") => engine::transcript_of::<MapWorld<u32>>(&cfg, hist),
+        ("map", "tk") => engine::transcript_of::<MapWorld<Tk>>(&cfg, hist),
+        ("map", "zst") => engine::transcript_of::<MapWorld<()>>(&cfg, hist),
+        ("set", "u32") => engine::transcript_of::<SetWorld<u32>>(&cfg, hist),
+        ("set", "tk") => engine::transcript_of::<SetWorld<Tk>>(&cfg, hist),
+        ("set", "zst") => engine::transcript_of::<SetWorld<()>>(&cfg, hist),
+        (w, t) => format!("no transcript for world {} type {}", w, t),
     }
 }
